@@ -34,9 +34,9 @@ PROPS = {
         "assumptions": ["requests small enough for the socket buffer (the client's partial-send path is an unimplemented stub)",
                         "a request without time-out behind a request that is never answered is not judged"],
         "quick": {"batches": [("c15_client", "plain", 12000), ("c15_client", "tsan", 1500), ("c15_client", "tsanat", 8000), ("c15_hostile_server", "tsanat", 3000),
-                              ("e2e_client_server", "plain", 12000), ("e2e_client_server", "tsan", 1200), ("e2e_client_server", "tsanat", 2500)], "chunk": 100},
+                              ("e2e_client_server", "plain", 12000), ("e2e_client_server", "tsan", 1200), ("e2e_client_server", "tsanat", 2500), ("c04_client", "plain", 6000)], "chunk": 100},
         "thorough": {"batches": [("c15_client", "plain", 80000), ("c15_client", "tsan", 10000), ("c15_client", "asan", 10000), ("c15_client", "tsanat", 100000), ("c15_hostile_server", "tsanat", 30000),
-                                 ("e2e_client_server", "plain", 150000), ("e2e_client_server", "tsan", 15000), ("e2e_client_server", "asan", 15000), ("e2e_client_server", "tsanat", 30000)], "chunk": 200},
+                                 ("e2e_client_server", "plain", 150000), ("e2e_client_server", "tsan", 15000), ("e2e_client_server", "asan", 15000), ("e2e_client_server", "tsanat", 30000), ("c04_client", "plain", 60000), ("c04_client", "tsanat", 10000)], "chunk": 200},
     },
     "C03": {
         "rule": "server side: 1..4 hostile connections x 1..3 hostile messages each (50 % generated requests with 1..4 mutations, 40 % valid skeletons with hostile "
